@@ -309,6 +309,8 @@ class Unit:
                 keeplogs = True
             elif d.kind == 'novac':
                 novac = True
+        if any(d.kind == 'metavars' for d in blk.dirs):
+            item = X.rename_metavars(item, log)
         if mutant_name:
             for d in blk.dirs:
                 if d.kind == 'mutant' and d.arg.split()[0] == mutant_name:
@@ -326,8 +328,6 @@ class Unit:
         if any(d.kind == 'r7' for d in blk.dirs):
             item = X.split_or_patterns(item, log)
         extra_caps = {}
-        if any(d.kind == 'metavars' for d in blk.dirs):
-            item = X.rename_metavars(item, log)
         for d in blk.dirs:
             if d.kind == 'param':
                 a = d.arg.split()
